@@ -551,6 +551,9 @@ def _snapshot(stack):
     return out
 
 
+EV_CLEAR, EV_LIST = 1000000, 1000001     # schedule entries: `eups admin clearLocks` / `listLocks` on stack 0
+
+
 def related(procs, i, j):
     return procs[i].get("lp") == j or procs[j].get("lp") == i
 
@@ -600,12 +603,24 @@ def run_schedule(case, phases=None):
                                   "explicit": sp.get("explicit", True), "base": base, "argv": argv,
                                   "user": sp.get("user"), "ro": list(sp.get("ro") or [])}))
         pidmap = {str(p.pid): p.index for p in procs}
+        # stale locks: files of processes that were killed outright ("ghosts"; pids that are nobody's)
+        ghosts = [(k, int(g)) for k, g in (case.get("stale") or [])]
+        ghostpid = {g: 4000000 + g for _k, g in ghosts}
+        if ghosts and not multi:
+            ld0 = os.path.join((os.path.join(base, stacks[0].lstrip("/")) if case.get("base") == "abs" else stacks[0]), LOCKDIR)
+            os.makedirs(ld0)
+            for k, g in ghosts:
+                open(os.path.join(ld0, "%s-ghost.%d" % ("exclusive" if k == "E" else "shared", ghostpid[g])), "w").close()
+                pidmap[str(ghostpid[g])] = g
         users = {str(i): sp.get("user") for i, sp in enumerate(specs)}
         for p, sp in zip(procs, specs):
             lp = sp.get("lp")
             p.start({"pidmap": pidmap, "multi": multi, "users": users,
-                     "lock_pid": (procs[lp].pid if lp is not None and lp < n else (999999 if lp is not None else None))})
+                     "lock_pid": (procs[lp].pid if lp is not None and lp < n else
+                                  (ghostpid.get(lp, 999999) if lp is not None else None))})
         order = {str(d): [] for d in range(nd)}     # per stack: real pids, newest lock file first
+        if ghosts and not multi:
+            order["0"] = [ghostpid[g] for _k, g in ghosts]
         trace, executed = [], []
         viols = []
 
@@ -636,7 +651,34 @@ def run_schedule(case, phases=None):
                                       "unlocked": d not in procs[b].held})
             return v
 
+        def admin(i):
+            """`eups admin clearLocks` / `listLocks` on stack 0: the real functions, run here (they bypass the protocol)"""
+            import contextlib
+            import io
+            import re
+            import eups.lock as lock
+            executed.append(i)
+            if i == EV_CLEAR:
+                sink = io.StringIO()
+                with contextlib.redirect_stdout(sink), contextlib.redirect_stderr(sink):
+                    lock.clearLocks([stacks[0]])
+                order["0"] = []
+                trace.append([-1, "clearLocks", "ok", current_violators(True)])
+            else:
+                out = io.StringIO()
+                with contextlib.redirect_stdout(out):
+                    lock.listLocks([stacks[0]])
+                txt = out.getvalue()
+                if not txt.strip():
+                    res = "-"
+                else:
+                    pids = re.findall(r"\[user=[^\]]*?, pid=(\d+)\]", txt)
+                    res = "[" + ",".join(str(x) for x in sorted(pidmap.get(q, -1) for q in pids)) + "]"
+                trace.append([-1, "listLocks", res, current_violators(False)])
+
         def one(i):
+            if i in (EV_CLEAR, EV_LIST):
+                return admin(i)
             if i < 0:
                 # a signal for process -(i+1): delivered while it is in its command body, otherwise not sent at all
                 p = procs[-i - 1]
